@@ -82,6 +82,13 @@ class Core:
                 self.a = ra.RaggedArray([arr(r, dtype) for r in rows])
         elif path == "arrays":
             self.a = ra.RaggedArray([arr(r, dtype) for r in rows])
+        elif path == "alias_module":
+            # the class as exported by its old home, enspara.util.array (still used by one of the library's apps)
+            import warnings
+            with warnings.catch_warnings():
+                warnings.simplefilter("ignore")
+                from enspara.util import array as old_home
+            self.a = old_home.RaggedArray([arr(r, dtype) for r in rows])
         else:
             flat = np.concatenate([arr(r, dtype) for r in rows])
             lengths = [len(r) for r in rows]
@@ -264,6 +271,10 @@ class Core:
             val = [list(self.A(x).tolist()) for x in v if len(x) > 0]
         elif op["form"] == "ragged":
             val = ra.RaggedArray([self.A(x) for x in v if len(x) > 0])
+        elif op["form"] in ("block_C", "block_F"):
+            # a rectangular 2-D ndarray (all selected rows offer the same number of cells), row- or column-major
+            blk = np.array([self.A(x) for x in v])
+            val = np.ascontiguousarray(blk) if op["form"] == "block_C" else np.asfortranarray(blk)
         else:
             val = np.concatenate([self.A(x) for x in v]) if v else self.A([])
         t = self.run_write(lambda: self.a.__setitem__((self.sel_obj(op["rows"]), s), val), empty)
@@ -525,7 +536,7 @@ def init_op(draw):
             vals = draw(st.lists(INT_VALS, min_size=L, max_size=L))
             rows.append([v / 2 for v in vals] if dtype == "float64" else vals)
     return {"op": "init", "rows": rows, "dtype": dtype, "vec": vec,
-            "path": draw(st.sampled_from(["nested", "arrays", "flat_nd", "flat_pyints", "flat_npints"]))}
+            "path": draw(st.sampled_from(["nested", "arrays", "flat_nd", "flat_pyints", "flat_npints", "alias_module"]))}
 
 
 def make_machine(hooks):
@@ -654,6 +665,9 @@ def make_machine(hooks):
                     form = "flat" if not self.core.vec else "scalar"
                     if form == "scalar":
                         v = self.val(data)
+                elif (not self.core.vec and len(v) >= 2 and len(set(len(x) for x in v)) == 1 and len(v[0]) >= 2
+                      and data.draw(st.booleans())):
+                    form = data.draw(st.sampled_from(["block_C", "block_F"]))
             self.do({"op": "set_2d", "rows": sel, "sl": s, "form": form, "v": v})
 
         @precondition(lambda self: self.alive())
